@@ -53,7 +53,7 @@ func checkC17(c *Ctx) {
 	guidFile := map[*ssa.Function]bool{}
 	if b2g != nil && g2b != nil {
 		guidFile[b2g], guidFile[g2b] = true, true
-		rl := c.leavesOf(b2g, true, 0)
+		rl, _ := c.wireLeaves(b2g, true)
 		okR := len(rl) == 4
 		wantR := []struct {
 			name  string
@@ -71,7 +71,7 @@ func checkC17(c *Ctx) {
 				continue
 			}
 			guidFile[w] = true
-			wl := c.leavesOf(w, false, 0)
+			wl, _ := c.wireLeaves(w, false)
 			ok := len(wl) == 4
 			for k, l := range wl {
 				if k < 4 && (l.width != wantR[k].width || l.order != "BE" && !(l.order == "-" && k == 3) || !strings.HasSuffix(l.id, "."+wantR[k].name)) {
